@@ -703,3 +703,36 @@ func contains(xs []string, x string) bool {
 func V(key, format string, a ...interface{}) explore.Violation {
 	return explore.Violation{Key: key, Msg: fmt.Sprintf(format, a...)}
 }
+
+// DebugScenario explores one scenario and prints statistics (development aid).
+func DebugScenario(name string, p, d int, self string) {
+	c := &Ctx{ID: "debug", Tier: "quick", Workers: 16, self: self, knownHit: map[string]int{}, nontrivialKeys: map[string]bool{}}
+	c.Deadline = time.Now().Add(10 * time.Minute)
+	t0 := time.Now()
+	part := c.DFS(name, explore.Bounds{Preempt: p, Dev: d})
+	fmt.Printf("%s P<=%d D<=%d: exec=%d distinct=%d maxchoices=%d viol=%d capped=%v %.1fs\n", name, p, d, part.Executions, part.Distinct, part.MaxChoices, part.Violations, part.Capped, time.Since(t0).Seconds())
+	for _, v := range c.newViol {
+		fmt.Printf("  VIOL %s: %s\n", v.Key, v.Msg)
+	}
+	for _, s := range part.Samples {
+		fmt.Println("  sample:", s)
+	}
+}
+
+// DebugEnum runs one enumeration and prints statistics (development aid).
+func DebugEnum(name, tier, self string) {
+	c := &Ctx{ID: "debug", Tier: tier, Workers: 16, self: self, knownHit: map[string]int{}, nontrivialKeys: map[string]bool{}}
+	c.Deadline = time.Now().Add(20 * time.Minute)
+	part := c.Enumerate(name)
+	fmt.Printf("%s: cases=%d distinct=%d viol=%d capped=%v %.1fs\n", name, part.Executions, part.Distinct, part.Violations, part.Capped, part.WallS)
+	seen := map[string]int{}
+	for _, v := range c.newViol {
+		seen[v.Key]++
+		if seen[v.Key] <= 2 {
+			fmt.Printf("  VIOL %s: %s   [case %v]\n", v.Key, truncate(v.Msg, 300), v.Detail["case"])
+		}
+	}
+	if c.broken != "" {
+		fmt.Println("  BROKEN:", c.broken)
+	}
+}
